@@ -110,7 +110,7 @@ struct Gen {
       } else if (k == 4 || k == 5) {
         int S = newSet(S_FUT, 0);
         int c = newTask(level);
-        PAct a; a.k = K_FUT; a.set = S; a.kids = {c}; a.mode = (int)rng.below(2);
+        PAct a; a.k = K_FUT; a.set = S; a.kids = {c}; a.mode = (int)rng.below(3);   // 0 deferred, 1 async, 2 explicit kNotAsync + kNotDeferred
         pre.push_back(a);
         if (rng.below(2)) ownSet(t, depth, level, pre, post);   // other work between launch and wait
         PAct w; w.k = K_FWAIT; w.set = S;
@@ -277,7 +277,11 @@ void exec(const PAct& a, Frame& fr, int self) {
     case K_FUT: {
       int c = a.kids[0];
       ev("call spawn %d %d", c, a.set);
-      fr.futs.emplace(a.set, dispenso::async(*g->pool, a.mode ? std::launch::async : std::launch::deferred, Body{c}));
+      if (a.mode == 2)
+        // a future that timed waits must not run inline; wait() / get() still run a not-yet-started functor themselves
+        fr.futs.emplace(a.set, dispenso::Future<void>(Body{c}, *g->pool, dispenso::kNotAsync, dispenso::kNotDeferred));
+      else
+        fr.futs.emplace(a.set, dispenso::async(*g->pool, a.mode ? std::launch::async : std::launch::deferred, Body{c}));
       ev("ret spawn");
       break;
     }
